@@ -78,6 +78,11 @@ def gen_records(ctx):
         args = bytes(rng.getrandbits(8) for _ in range(32)) if rng.random() < 0.7 else \
             struct.pack('<QQQQ', *[rng.choice(specials) for _ in range(4)])
         recs.append(('fields', struct.pack('<Q32sQIIQ', ts, args, tid, dbg, cpu, unused)))
+    # constant-byte regions: every byte value repeated over the argument region / the whole record (blank, tab, newline, NUL,
+    # 0xff ... : bytes that text-oriented shortcuts treat specially)
+    for b in range(256):
+        recs.append(('const', bytes([b]) * 64))
+        recs.append(('const', struct.pack('<Q', 5) + bytes([b]) * 32 + struct.pack('<QIIQ', 6, 0x040c000c, 1, 0)))
     n_rand = 600 if ctx.quick() else 20000
     for _ in range(n_rand):
         recs.append(('random', bytes(rng.getrandbits(8) for _ in range(64))))
@@ -126,7 +131,9 @@ def to_case(buf, res):
 
 def run(ctx, model_ok):
     recs = gen_records(ctx)
-    res = vlib.run_impl('run_kevent.py', {'records': [b.hex() for _, b in recs]})['results']
+    from ..harness import dumps as D
+    hist = D.build_v2([(5, 1, b'p')], 0, [D.record(1, [1, 2, 3, 4], 5, 0x040c000c | 1), D.record(2, [5, 6, 7, 8], 9, 0x040c000c | 2)])
+    res = vlib.run_impl('run_kevent.py', {'records': [b.hex() for _, b in recs], 'history': hist.hex()})['results']
     ctx.evaluations = len(recs)
     ctx.rule = ('records: walking-one over all 512 bit positions, walking-zero, byte-position probes, field extremes '
                 '(0,1,2,3,4,2^31,2^32-1,0xfffffffc/d,2^63,2^64-1) x random other fields, uniform random records, '
